@@ -1,0 +1,128 @@
+//go:build verif
+
+package table
+
+// Machine-checked contracts for /verif (read as text by the VC generator; no code).
+// The g<Iface><Method>{N,Recv,A<i>,R<i>} ghost variables record calls on the underlying store
+// (see /verif/contracts/trusted/kvstore_recording.contracts).
+//
+//@ // isCat(r, p, k): r is the byte string p followed by k
+//@ spec isCat(r []byte, p []byte, k []byte) bool = len(r) == len(p) + len(k) && forall(i, 0, len(p), r[i] == p[i]) && forall(j, 0, len(k), r[len(p) + j] == k[j])
+//@ // isTail(r, x, n): r is x without its first n bytes
+//@ spec isTail(r []byte, x []byte, n int) bool = len(r) == len(x) - n && forall(j, 0, len(r), r[j] == x[n + j])
+//@
+//@ // a key has exactly one decomposition for a given prefix; keys with different tails differ
+//@ lemma cat_injective(r []byte, p []byte, k1 []byte, k2 []byte)
+//@   requires isCat(r, p, k1) && isCat(r, p, k2)
+//@   ensures  len(k1) == len(k2) && forall(j, 0, len(k1), k1[j] == k2[j])
+//@ // tables whose prefixes are not prefixes of one another have disjoint key spaces
+//@ lemma cat_isolation(r []byte, p1 []byte, k1 []byte, p2 []byte, k2 []byte)
+//@   requires isCat(r, p1, k1) && isCat(r, p2, k2) && len(p1) <= len(p2)
+//@   ensures  forall(i, 0, len(p1), p1[i] == p2[i])
+//@ // nested prefixes compose
+//@ lemma cat_assoc(r []byte, p []byte, q []byte, k []byte, m []byte)
+//@   requires isCat(m, q, k) && isCat(r, p, m)
+//@   ensures  forall(i, 0, len(p), r[i] == p[i]) && forall(i, 0, len(q), r[len(p) + i] == q[i]) && forall(j, 0, len(k), r[len(p) + len(q) + j] == k[j]) && len(r) == len(p) + len(q) + len(k)
+//@
+//@ func prefixed
+//@   requires len(prefix) + len(key) <= 1000000000000
+//@   ensures  fresh(result) && isCat(result, prefix, key)
+//@ func noPrefix
+//@   ensures  len(key) >= len(prefix) ==> isTail(result, key, len(prefix)) && arrof(result) == arrof(key)
+//@   ensures  len(key) < len(prefix) ==> result == key
+//@
+//@ inv Table tbl(t): t != nil && t.underlying != nil && t.IteratedReader.underlying != nil && len(t.prefix) <= 1000000000
+//@
+//@ func (*Table).Put
+//@   requires tbl(t) && len(key) <= 1000000000
+//@   modifies gKeyValueWriterPutN, gKeyValueWriterPutRecv, gKeyValueWriterPutA0, gKeyValueWriterPutA1, gKeyValueWriterPutR0
+//@   ensures  gKeyValueWriterPutN == old(gKeyValueWriterPutN) + 1 && gKeyValueWriterPutRecv == t.underlying
+//@   ensures  isCat(gKeyValueWriterPutA0, t.prefix, key) && gKeyValueWriterPutA1 == value && result == gKeyValueWriterPutR0
+//@ func (*Table).Delete
+//@   requires tbl(t) && len(key) <= 1000000000
+//@   modifies gKeyValueWriterDeleteN, gKeyValueWriterDeleteRecv, gKeyValueWriterDeleteA0, gKeyValueWriterDeleteR0
+//@   ensures  gKeyValueWriterDeleteN == old(gKeyValueWriterDeleteN) + 1 && gKeyValueWriterDeleteRecv == t.underlying
+//@   ensures  isCat(gKeyValueWriterDeleteA0, t.prefix, key) && result == gKeyValueWriterDeleteR0
+//@ func (*IteratedReader).Has
+//@   requires t != nil && t.underlying != nil && len(key) + len(t.prefix) <= 1000000000
+//@   modifies gKeyValueReaderHasN, gKeyValueReaderHasRecv, gKeyValueReaderHasA0, gKeyValueReaderHasR0, gKeyValueReaderHasR1
+//@   ensures  gKeyValueReaderHasN == old(gKeyValueReaderHasN) + 1 && gKeyValueReaderHasRecv == t.underlying
+//@   ensures  isCat(gKeyValueReaderHasA0, t.prefix, key) && result0 == gKeyValueReaderHasR0 && result1 == gKeyValueReaderHasR1
+//@ func (*IteratedReader).Get
+//@   requires t != nil && t.underlying != nil && len(key) + len(t.prefix) <= 1000000000
+//@   modifies gKeyValueReaderGetN, gKeyValueReaderGetRecv, gKeyValueReaderGetA0, gKeyValueReaderGetR0, gKeyValueReaderGetR1
+//@   ensures  gKeyValueReaderGetN == old(gKeyValueReaderGetN) + 1 && gKeyValueReaderGetRecv == t.underlying
+//@   ensures  isCat(gKeyValueReaderGetA0, t.prefix, key) && result0 == gKeyValueReaderGetR0 && result1 == gKeyValueReaderGetR1
+//@ func (*IteratedReader).NewIterator
+//@   requires t != nil && t.underlying != nil && len(itPrefix) + len(t.prefix) <= 1000000000
+//@   modifies gIterateeNewIteratorN, gIterateeNewIteratorRecv, gIterateeNewIteratorA0, gIterateeNewIteratorA1, gIterateeNewIteratorR0
+//@   ensures  gIterateeNewIteratorN == old(gIterateeNewIteratorN) + 1 && gIterateeNewIteratorRecv == t.underlying
+//@   ensures  isCat(gIterateeNewIteratorA0, t.prefix, itPrefix) && gIterateeNewIteratorA1 == start
+//@   ensures  typeis(result, "*iterator") && unbox(result, "*iterator").it == gIterateeNewIteratorR0 && unbox(result, "*iterator").prefix == t.prefix
+//@
+//@ func (*iterator).Next
+//@   requires it != nil && it.it != nil
+//@   modifies gIteratorNextN, gIteratorNextRecv, gIteratorNextR0
+//@   ensures  gIteratorNextN == old(gIteratorNextN) + 1 && gIteratorNextRecv == it.it && result == gIteratorNextR0
+//@ func (*iterator).Key
+//@   requires it != nil && it.it != nil
+//@   modifies gIteratorKeyN, gIteratorKeyRecv, gIteratorKeyR0
+//@   ensures  gIteratorKeyN == old(gIteratorKeyN) + 1 && gIteratorKeyRecv == it.it
+//@   ensures  len(gIteratorKeyR0) >= len(it.prefix) ==> isTail(result, gIteratorKeyR0, len(it.prefix))
+//@ func (*iterator).Value
+//@   requires it != nil && it.it != nil
+//@   modifies gIteratorValueN, gIteratorValueRecv, gIteratorValueR0
+//@   ensures  gIteratorValueN == old(gIteratorValueN) + 1 && gIteratorValueRecv == it.it && result == gIteratorValueR0
+//@ func (*iterator).Error
+//@   requires it != nil && it.it != nil
+//@   modifies gIteratorErrorN, gIteratorErrorRecv, gIteratorErrorR0
+//@   ensures  gIteratorErrorN == old(gIteratorErrorN) + 1 && gIteratorErrorRecv == it.it && result == gIteratorErrorR0
+//@
+//@ func (*batch).Put
+//@   requires b != nil && b.batch != nil && len(key) + len(b.prefix) <= 1000000000
+//@   modifies gKeyValueWriterPutN, gKeyValueWriterPutRecv, gKeyValueWriterPutA0, gKeyValueWriterPutA1, gKeyValueWriterPutR0
+//@   ensures  gKeyValueWriterPutN == old(gKeyValueWriterPutN) + 1 && gKeyValueWriterPutRecv == b.batch
+//@   ensures  isCat(gKeyValueWriterPutA0, b.prefix, key) && gKeyValueWriterPutA1 == value && result == gKeyValueWriterPutR0
+//@ func (*batch).Delete
+//@   requires b != nil && b.batch != nil && len(key) + len(b.prefix) <= 1000000000
+//@   modifies gKeyValueWriterDeleteN, gKeyValueWriterDeleteRecv, gKeyValueWriterDeleteA0, gKeyValueWriterDeleteR0
+//@   ensures  gKeyValueWriterDeleteN == old(gKeyValueWriterDeleteN) + 1 && gKeyValueWriterDeleteRecv == b.batch
+//@   ensures  isCat(gKeyValueWriterDeleteA0, b.prefix, key) && result == gKeyValueWriterDeleteR0
+//@ func (*batch).Write
+//@   requires b != nil && b.batch != nil
+//@   modifies gBatchWriteN, gBatchWriteRecv, gBatchWriteR0
+//@   ensures  gBatchWriteN == old(gBatchWriteN) + 1 && gBatchWriteRecv == b.batch && result == gBatchWriteR0
+//@ func (*batch).Replay
+//@   requires b != nil && b.batch != nil
+//@   modifies gBatchReplayN, gBatchReplayRecv, gBatchReplayA0, gBatchReplayR0
+//@   ensures  gBatchReplayN == old(gBatchReplayN) + 1 && gBatchReplayRecv == b.batch && result == gBatchReplayR0
+//@   ensures  typeis(gBatchReplayA0, "*replayer") && unbox(gBatchReplayA0, "*replayer").writer == w && unbox(gBatchReplayA0, "*replayer").prefix == b.prefix
+//@
+//@ func (*replayer).Put
+//@   requires r != nil && r.writer != nil
+//@   modifies gKeyValueWriterPutN, gKeyValueWriterPutRecv, gKeyValueWriterPutA0, gKeyValueWriterPutA1, gKeyValueWriterPutR0
+//@   ensures  gKeyValueWriterPutN == old(gKeyValueWriterPutN) + 1 && gKeyValueWriterPutRecv == r.writer && gKeyValueWriterPutA1 == value && result == gKeyValueWriterPutR0
+//@   ensures  len(key) >= len(r.prefix) ==> isTail(gKeyValueWriterPutA0, key, len(r.prefix))
+//@ func (*replayer).Delete
+//@   requires r != nil && r.writer != nil
+//@   modifies gKeyValueWriterDeleteN, gKeyValueWriterDeleteRecv, gKeyValueWriterDeleteA0, gKeyValueWriterDeleteR0
+//@   ensures  gKeyValueWriterDeleteN == old(gKeyValueWriterDeleteN) + 1 && gKeyValueWriterDeleteRecv == r.writer && result == gKeyValueWriterDeleteR0
+//@   ensures  len(key) >= len(r.prefix) ==> isTail(gKeyValueWriterDeleteA0, key, len(r.prefix))
+//@
+//@ func New
+//@   ensures  fresh(result) && result.underlying == db && result.prefix == prefix && result.IteratedReader.underlying == db
+//@ func (*Table).NewTable
+//@   requires t != nil
+//@   ensures  fresh(result) && result.prefix == prefix && typeis(result.underlying, "*Table") && unbox(result.underlying, "*Table") == t
+//@
+//@ // incPrefix goes through math/big; its contract is checked by a bounded stand-in
+//@ // (/verif/bounded/incprefix_test.go), not proved: it is TRUSTED in the proof of Compact.
+//@ trusted func incPrefix
+//@   ensures isnil(result) || len(result) == len(prefix)
+//@ func (*Table).Compact
+//@   requires tbl(t) && len(start) <= 1000000000 && len(limit) <= 1000000000
+//@   modifies gCompacterCompactN, gCompacterCompactRecv, gCompacterCompactA0, gCompacterCompactA1, gCompacterCompactR0
+//@   ensures  gCompacterCompactN == old(gCompacterCompactN) + 1 && gCompacterCompactRecv == t.underlying && result == gCompacterCompactR0
+//@   ensures  isCat(gCompacterCompactA0, t.prefix, start)
+//@   ensures  !isnil(limit) ==> isCat(gCompacterCompactA1, t.prefix, limit)
+//@   ensures  isnil(limit) ==> isnil(gCompacterCompactA1) || len(gCompacterCompactA1) == len(t.prefix)
